@@ -7,7 +7,7 @@ import projgen
 import propcommon
 import runoracle
 
-PROFILE = {"p_dep": 0.6, "max_tests": 5, "p_fail": 0.25, "max_fixtures": 2, "p_hook": 0.15, "script_len": 3, "p_spawn": 0.0,
+PROFILE = {"p_dep": 0.6, "max_tests": 5, "p_fail": 0.25, "max_fixtures": 2, "p_hook": 0.15, "script_len": 3, "p_spawn": 0.0, "p_dup_name": 0.5,
            "p_disabled_test": 0.15, "raise_kinds": ["Exception", "AbortTest"]}
 
 
